@@ -261,7 +261,7 @@ def run(plan):
 
 def space(tier):
     sp = Space(ID)
-    reps = 1 if tier == "quick" else 6
+    reps = 1 if tier == "quick" else 40
 
     def lengths(j, rng):
         k = j % 31               # 31 runs x 10 lengths cover 0..309
@@ -298,7 +298,7 @@ def space(tier):
         return {"mode": "burst", "config": {"version": 3, "key": rand_bytes(rng, 32).hex(), "token": rand_bytes(rng, 64).hex()},
                 "burst": [rng.choice([0, 1, 13, 14, 15, 30, 62, 104, rng.randint(0, 300)]) for _ in range(n)],
                 "bp": rng.choice([1 / 4096, 1 / 1024])}
-    sp.add("burst_under_backpressure", 1500 if tier == "quick" else 60_000, burst)
+    sp.add("burst_under_backpressure", 1500 if tier == "quick" else 400_000, burst)
 
     def counter(j, rng):
         return {"mode": "counter", "config": {"version": 3, "key": rand_bytes(rng, 32).hex()},
